@@ -70,6 +70,20 @@ func checkFit(c fitCase) *vk.Failure {
 	if c.Sorted {
 		wcls += ",sorted"
 	}
+	{
+		// Near-coincident samples far from the origin make the fitted scale a
+		// difference of nearly equal numbers: the identities below then only
+		// hold up to eps*kappa^2 (kappa = max|x| / spread). Such cases are
+		// outside what the check can decide.
+		lo, hi, ma := math.Inf(1), math.Inf(-1), 0.0
+		for _, v := range x {
+			lo, hi, ma = math.Min(lo, v), math.Max(hi, v), math.Max(ma, math.Abs(v))
+		}
+		if !(hi-lo > 0) || ma/(hi-lo) > 1e6 {
+			vk.Class(c.T + "/ill-conditioned-samples/skipped")
+			return nil
+		}
+	}
 	vk.Class(c.T + "/" + wcls + "/fit")
 	vk.NonTrivial(c.T, wcls, "fit", c.X, c.W, c.M)
 	vk.Sample("uv-fit", c)
@@ -263,7 +277,7 @@ func checkFit(c fitCase) *vk.Failure {
 }
 
 func TestUVFit(t *testing.T) {
-	vk.Run(t, "uv-fit", vk.Opts{Quick: 3000, Thorough: 60000, NoCrumb: true}, func(t *rapid.T) fitCase {
+	vk.Run(t, "uv-fit", vk.Opts{Quick: 6000, Thorough: 100000, NoCrumb: true}, func(t *rapid.T) fitCase {
 		c := fitCase{T: rapid.SampledFrom([]string{"Normal", "Exponential", "Laplace"}).Draw(t, "type")}
 		n := rapid.IntRange(2, 12).Draw(t, "n")
 		loc := genLoc(t, "loc")
